@@ -109,14 +109,7 @@ func runC13(c *Ctx) {
 		}
 		c.Check(okAssert && okReject, "C13.U2-prototype-type-pairing", uw.Name+" › asserted to *"+t.name, uw.SSA.Pos(), "success returns bindnode.Unwrap(node).(*"+t.name+") only when the assertion holds and the pointer is non-nil", "Unwrap does not return the checked *"+t.name+" of the unwrapped node")
 		if result != nil {
-			modified := token.NoPos
-			instrs(uw.SSA, func(in ssa.Instruction) {
-				if st, ok := in.(*ssa.Store); ok {
-					if a := c.E(st.Addr); a.Op == "field" && Same(a.Args[0], result) {
-						modified = st.Pos()
-					}
-				}
-			})
+			modified := storesRootedAt(c, uw.SSA, result)
 			c.Check(!modified.IsValid(), "C13.U6-unwrapped-unmodified", uw.Name+" › value returned as decoded", uw.SSA.Pos(), "no field of the unwrapped value is stored to", "the unwrapped value is modified before it is returned (at "+c.pos(modified)+"): decoding no longer returns what was encoded")
 		}
 		// ---- U2 init side ---------------------------------------------------------------------------
@@ -309,4 +302,50 @@ func runC13(c *Ctx) {
 		c.Check(ok, "C13.U7-link-prototype", "ingest/schema.Linkproto", token.NoPos, "Linkproto = CIDv1, dag-json, sha2-256, default length", "Linkproto no longer fixes CIDv1 / dag-json / sha2-256 / default length: stored blocks get different CIDs")
 	}
 	c.Floor("C13.U7-link-prototype", 1)
+}
+
+// storesRootedAt: position of a store, in fn, to memory reached from value v
+// through any chain of field / index / dereference steps (NoPos if none).
+func storesRootedAt(c *Ctx, fn *ssa.Function, v *X) token.Pos {
+	modified := token.NoPos
+	instrs(fn, func(in ssa.Instruction) {
+		st, ok := in.(*ssa.Store)
+		if !ok {
+			return
+		}
+		a := c.E(st.Addr)
+		for d := 0; d < 8 && a != nil; d++ {
+			if Same(a, v) {
+				if d > 0 {
+					modified = st.Pos()
+				}
+				return
+			}
+			switch a.Op {
+			case "field", "index", "deref", "slice", "assert":
+				a = a.Args[0]
+			case "extract":
+				if a.Name == "0" {
+					a = a.Args[0]
+				} else {
+					return
+				}
+			default:
+				return
+			}
+		}
+	})
+	return modified
+}
+
+// unwrapResult: the value an Unwrap function returns on success.
+func unwrapResult(c *Ctx, uw *ssa.Function) *X {
+	for _, b := range uw.Blocks {
+		ret, ok := b.Instrs[len(b.Instrs)-1].(*ssa.Return)
+		if !ok || len(ret.Results) != 2 || c.RetX(ret, 1).Op != "nil" {
+			continue
+		}
+		return c.RetX(ret, 0)
+	}
+	return nil
 }
